@@ -48,7 +48,8 @@ where
             .map_err(|e| SnmpError::SocketError(e.to_string()))?;
         if timeout_ns > 0 {
             // Blocking mode
-            io.set_read_timeout(Some(Duration::from_nanos(timeout_ns)))
+            // SO_RCVTIMEO has microsecond resolution and zero means "no timeout"
+            io.set_read_timeout(Some(Duration::from_nanos(timeout_ns.max(1_000))))
                 .map_err(|e| SnmpError::SocketError(e.to_string()))?;
         } else {
             // Mark socket as non-blocking
@@ -159,7 +160,9 @@ where
                 if let Some(d) = deadline {
                     // Wait for the rest of the time only
                     let left = d.saturating_duration_since(Instant::now());
-                    if left.is_zero() {
+                    // Less than a microsecond would be rounded down to zero,
+                    // which means "no timeout" for SO_RCVTIMEO
+                    if left < Duration::from_micros(1) {
                         return Err(SnmpError::WouldBlock.into());
                     }
                     io.set_read_timeout(Some(left))
